@@ -173,6 +173,13 @@ class Command(BaseCommand):
             simulated = self._check_simulation()
 
             if not self.evolver.get_evolution_required():
+                if execute and any(task.new_evolutions
+                                   for task in self.evolver.tasks):
+                    # There's nothing to change in the database, but there
+                    # are evolutions to record as applied (ones with no
+                    # net effect, or whose changes were already made).
+                    self.evolver.evolve()
+
                 if self.verbosity > 0:
                     self.stdout.write(_('No database upgrade required.\n'))
             elif execute:
